@@ -12,7 +12,12 @@ EXPLANATION = ("Every function between the leaf handlers and the dispatch is sym
 
 
 def build(world):
-    return hc.build_for(world, PROP)
+    from . import gateway_units as gu
+    units = hc.build_for(world, PROP)
+    # how a command gets into the buffer: under its own (node, child, value type) key, displacing nothing else; and Gateway.send
+    # returning only if no write failed (the clauses of the outgoing contracts that carry C08's id)
+    units += [u for u in gu.send_units(world) if "handle_set" in u.name or "Gateway.send[" in u.name]
+    return units
 
 
 def replay(world, ob):
